@@ -9,6 +9,7 @@ package main
 // (node tables in resolver order, typed/raw fragment tables, parsed reference texts) are derived by c11Derive.
 
 import (
+	"bytes"
 	"os"
 	"encoding/json"
 	"fmt"
@@ -527,11 +528,15 @@ func c11Derive(c hx.Case) hx.Case {
 	g, _ := c["g"].(map[string]any)
 	files := jlist(g["files"])
 	c["allowed"] = jbool(g, "allowed")
-	c["entry"] = jstr(g, "entry")
+	entry := jstr(g, "entry")
+	if entry == "reader" {
+		entry = "data" // LoadFromIoReader (and LoadFromStdin) read everything and call LoadFromData
+	}
+	c["entry"] = entry
 	c["rootInStore"] = jbool(g, "rootInStore")
 	rootText := jstr(g, "root")
 	c["rootLoc"] = nil
-	if jstr(g, "entry") != "data" {
+	if entry != "data" {
 		uj, _ := c11UrlJSON(rootText)
 		c["rootLoc"] = uj
 	}
@@ -542,7 +547,7 @@ func c11Derive(c hx.Case) hx.Case {
 		abs := c11FileAbstract(f)
 		if i == 0 {
 			c["rootFile"] = abs
-			if jstr(g, "entry") == "data" && jbool(g, "rootInStore") {
+			if entry == "data" && jbool(g, "rootInStore") {
 				// LoadFromData: the root has no location; its file may still sit in the universe under its name
 				uj, _ := c11UrlJSON(jstr(f, "loc"))
 				store = append(store, map[string]any{"loc": uj, "file": abs})
@@ -609,6 +614,8 @@ func runC11(c hx.Case) any {
 			}
 		case "dataWithPath":
 			_, err = loader.LoadFromDataWithPath(rootBody, ru)
+		case "reader":
+			_, err = loader.LoadFromIoReader(bytes.NewReader(rootBody))
 		default:
 			_, err = loader.LoadFromData(rootBody)
 		}
@@ -989,9 +996,9 @@ func (u *c11Uni) docOrElem(view string, loc string, depth int) c11El {
 func c11RandomCase(r *hx.Rng) hx.Case {
 	u := &c11Uni{r: r, byKey: map[string]bool{}, budget: 2 + r.Intn(5)}
 	rootLoc := hx.Pick(r, []string{"/r/a/root.json", "/r/a/root.json", "/r/a/root.json", "http://h.example/r/a/root.json", "r/a/root.json", "/r/a/sub/root.json", "file:///r/a/root.json"})
-	entry := hx.Pick(r, []string{"file", "file", "dataWithPath", "data"})
+	entry := hx.Pick(r, []string{"file", "file", "file", "dataWithPath", "dataWithPath", "data", "data", "reader"})
 	base := rootLoc
-	if entry == "data" {
+	if entry == "data" || entry == "reader" {
 		base = ""
 	}
 	pu, _ := url.Parse(rootLoc)
